@@ -452,3 +452,50 @@ fn condvar_wait_timeout_model() {
         assert!(r.failure.is_none(), "seed {seed}: {:?}", r.failure);
     }
 }
+
+/// A spurious `Condvar::wait` wake-up (fault plan) breaks a waiter that
+/// checks its predicate with `if`, and not one that loops.
+#[test]
+fn condvar_spurious_wakeup_fault() {
+    use dsim::shim::sync::{Condvar, Mutex};
+    use std::sync::{atomic::{AtomicBool, Ordering}, Arc};
+    let run = |looping: bool| {
+        let wrong = Arc::new(AtomicBool::new(false));
+        let w2 = wrong.clone();
+        let cfg = dsim::RunConfig {
+            seed: 7,
+            strategy: dsim::StrategySpec::RunToBlock,
+            faults: dsim::FaultPlan { spurious_parks: vec![(0, 0)], ..dsim::FaultPlan::default() },
+            ..dsim::RunConfig::default()
+        };
+        let r = dsim::run(
+            cfg,
+            Box::new(move || {
+                let pair = Arc::new((Mutex::new(false), Condvar::new()));
+                let mut g = pair.0.lock().unwrap();
+                let p2 = pair.clone();
+                let h = dsim::shim::thread::spawn(move || {
+                    dsim::shim::thread::yield_now();
+                    *p2.0.lock().unwrap() = true;
+                    p2.1.notify_one();
+                });
+                if looping {
+                    while !*g {
+                        g = pair.1.wait(g).unwrap();
+                    }
+                } else if !*g {
+                    g = pair.1.wait(g).unwrap();
+                }
+                if !*g {
+                    w2.store(true, Ordering::Relaxed);
+                }
+                drop(g);
+                h.join().unwrap();
+            }),
+        );
+        assert!(r.failure.is_none(), "{:?}", r.failure);
+        wrong.load(Ordering::Relaxed)
+    };
+    assert!(run(false), "the `if` waiter must be broken by the spurious wake-up");
+    assert!(!run(true), "the looping waiter must survive it");
+}
